@@ -85,6 +85,7 @@ type caseIn struct {
 	Tol     int64    `json:"tol"`     // tolerance (model ms) for durations returned by GetExpiration
 	Fill    int      `json:"fill"`    // sweep: number of expired entries that make the sweep long
 	Ticker  bool     `json:"ticker"`  // sweep: the StartCleanup goroutine sweeps instead of an explicit CleanupExpired call
+	Setup   []opIn   `json:"setup"`   // upgrade: calls that plant the key (lifetime 2 ms), after which the harness waits until it has expired
 }
 
 type obs []interface{}
@@ -105,7 +106,8 @@ type caseOut struct {
 	PropMsg  string   `json:"prop_msg,omitempty"`
 	PropKey  string   `json:"prop_key,omitempty"`
 	FailAt   int      `json:"fail_at"`
-	ShapeEnd int      `json:"shape_end"` // redis: index of the operation after which the history left the compared shape (-1: never)
+	ShapeEnd int      `json:"shape_end"`       // redis: index of the operation after which the history left the compared shape (-1: never)
+	Order    string   `json:"order,omitempty"` // upgrade: the sequential order that explains the answers: "rw" (reader first) or "wr"
 }
 
 // JSON value -> Go value handed to the storage: string, int64, nil, []any of those
@@ -1200,6 +1202,103 @@ func gen() {
 
 // ---------------------------------------------------------------------------------------------
 
+// upgrade: an expired-entry reader racing a writer.  The key is planted and left to expire (no cleanup runs).  The harness
+// takes Storage.mu for writing, lets the reader park in its RLock and the writer in its Lock (confirmed through the mutex's
+// own counters), and releases: sync.RWMutex then admits the parked reader first, the writer waits for it to drain, and a
+// second (write-locked) section of the reader — GetHash / GetAllHash / GetExpiration evict what they found expired — queues
+// behind the writer.  So the writer's whole call lands exactly between the reader's two sections.
+// Predicate: the two answers and every later read are those of ONE of the two sequential orders of the two calls.
+func runUpgrade(c caseIn) *caseOut {
+	out := &caseOut{PropOK: true, FailAt: -1, ShapeEnd: -1}
+	reader, writer, reads := c.Ops[0], c.Ops[1], c.Ops[2:]
+	for attempt := 0; attempt < 3 && out.Overlap == 0; attempt++ {
+		st := memory.New(context.Background())
+		r := newRef(defaultTTLms())
+		for _, o := range c.Setup {
+			if g := apply(st, o, 1); g[0] == "panic" || g[0] == "err" {
+				panic(fmt.Sprintf("upgrade setup %s: %v", o.Op, g))
+			}
+			r.step(o)
+		}
+		time.Sleep(12 * time.Millisecond)
+		r.step(opIn{Op: "tick", D: 1000})
+		st.VerifMuLock()
+		var wg sync.WaitGroup
+		var robs, wobs obs
+		wg.Add(1)
+		go func() { defer wg.Done(); robs = apply(st, reader, 1) }()
+		parkedR, parkedW := false, false
+		_, _, layout := st.VerifMuParked()
+		for t0 := time.Now(); layout && time.Since(t0) < 50*time.Millisecond; time.Sleep(20 * time.Microsecond) {
+			if n, _, _ := st.VerifMuParked(); n >= 1 {
+				parkedR = true
+				break
+			}
+		}
+		if !layout {
+			time.Sleep(2 * time.Millisecond)
+		}
+		wg.Add(1)
+		go func() { defer wg.Done(); wobs = apply(st, writer, 1) }()
+		for t0 := time.Now(); layout && time.Since(t0) < 50*time.Millisecond; time.Sleep(20 * time.Microsecond) {
+			if _, w, _ := st.VerifMuParked(); w >= 1 {
+				parkedW = true
+				break
+			}
+		}
+		if !layout {
+			time.Sleep(2 * time.Millisecond)
+		}
+		st.VerifMuUnlock()
+		wg.Wait()
+		if parkedR && parkedW {
+			out.Overlap = 1
+		}
+		out.Obs = []obs{robs, wobs}
+		for _, rd := range reads {
+			out.Obs = append(out.Obs, apply(st, rd, 1))
+		}
+		st.Close()
+		// the two sequential orders
+		explain := func(first, second opIn, swap bool) ([]obs, bool) {
+			q := r.clone()
+			a := q.step(first)
+			b := q.step(second)
+			want := []obs{a, b}
+			if swap {
+				want = []obs{b, a}
+			}
+			for _, rd := range reads {
+				want = append(want, q.step(rd))
+			}
+			for i := range want {
+				if !sameObs(out.Obs[i], want[i], 5000) {
+					return want, false
+				}
+			}
+			return want, true
+		}
+		wantRW, okRW := explain(reader, writer, false)
+		wantWR, okWR := explain(writer, reader, true)
+		switch {
+		case okRW:
+			out.Order, out.Ref = "rw", wantRW
+		case okWR:
+			out.Order, out.Ref = "wr", wantWR
+		default:
+			out.Ref = wantRW
+			out.PropOK = false
+			out.PropKey = "mem:reader-upgrade-vs-writer-not-linearizable"
+			a, _ := json.Marshal(out.Obs)
+			b1, _ := json.Marshal(wantRW)
+			b2, _ := json.Marshal(wantWR)
+			out.PropMsg = fmt.Sprintf("%s(%s) on an expired key raced by %s(%s): answers [reader, writer, later reads...] = %s; order reader;writer gives %s, order writer;reader gives %s — no sequential order of the two completed calls explains them", reader.Op, reader.K, writer.Op, writer.K, a, b1, b2)
+			return out
+		}
+	}
+	return out
+}
+
 func runCase(raw []byte) *caseOut {
 	var c caseIn
 	dec := json.NewDecoder(bytes.NewReader(raw))
@@ -1216,6 +1315,8 @@ func runCase(raw []byte) *caseOut {
 		return runBoth(c)
 	case "sweep":
 		return runSweep(c)
+	case "upgrade":
+		return runUpgrade(c)
 	}
 	panic("unknown mode " + c.Mode)
 }
